@@ -33,13 +33,13 @@ type pair struct {
 
 type stamp struct{ Sec, Loc int64 }
 
-func (s stamp) IsZero() bool   { return s.Sec == 0 }
+func (s stamp) IsZero() bool { return s.Sec == 0 }
 
 // odd is a comparable type whose IsZero() is FALSE for its own zero value and true for one non-zero value:
 // typ.IsZero must still report the zero value as zero (value == zero is checked first, the method only otherwise).
 type odd struct{ N int64 }
 
-func (o odd) IsZero() bool { return o.N == 7 }
+func (o odd) IsZero() bool     { return o.N == 7 }
 func (s stamp) String() string { return fmt.Sprintf("stamp(%d,%d)", s.Sec, s.Loc) }
 
 type (
